@@ -14,6 +14,7 @@ pub fn info() -> PropInfo {
         rule: "proptest over claim trees; per tree EVERY planting position is enumerated (new member last/first in every object incl. root, objects in arrays and in values that become hidden; new one-member object element at front/end of every array; every leaf replaced by a one-member object) x name in {_sd, ...} x generated value x strategies {NoSD, TopLevel, AllLevels, the case's Custom list}; oracle: planted => Err (never Ok, never panic); control (unplanted) must not be refused with the reserved-name error. Non-trivial sub-case: planted below the top level or inside an array; distinct by (case hash, name, position, strategy). evaluations = issuances executed.",
         assumptions: &["the reserved-name refusal is recognised by the DataFieldMismatch error text ('data field is not expected') for the control only; planted cases accept any Err"],
         needs_mock: false,
+        rounds: 4,
     }
 }
 
